@@ -3,6 +3,8 @@ use crate::{Acc, Args};
 use serde_json::Value;
 
 pub mod c04;
+pub mod c05perm;
+pub mod c07enum;
 pub mod c09;
 pub mod c12;
 pub mod c13;
@@ -14,6 +16,8 @@ pub mod sampled;
 pub fn run(name: &str, a: &Args, acc: &mut Acc) {
     match name {
         "c04" => c04::run(a, acc),
+        "c05perm" => c05perm::run(a, acc),
+        "c07enum" => c07enum::run(a, acc),
         "c09" => c09::run(a, acc),
         "c12" => c12::run(a, acc),
         "c13" => c13::run(a, acc),
